@@ -120,6 +120,11 @@ fn main() {
     for (name, required) in mon::requirements(&prop, tier) {
         let seen = if let Some(set) = name.strip_prefix("set:") {
             sets.get(set).map_or(0, |s| s.len() as u64)
+        } else if let Some(ratio) = name.strip_prefix("percent:") {
+            // "percent:<numerator counter>/<denominator counter>": required is a percentage
+            let (a, b) = ratio.split_once('/').unwrap_or((ratio, ""));
+            let (a, b) = (counters.get(a).copied().unwrap_or(0), counters.get(b).copied().unwrap_or(0));
+            if b == 0 { 0 } else { a * 100 / b }
         } else {
             counters.get(name).copied().unwrap_or(0)
         };
@@ -127,6 +132,9 @@ fn main() {
             reasons.push(format!("minimum observation not met: {name} required {required}, seen {seen}"));
         }
         min_obs.push(json!({"name": name, "required": required, "seen": seen}));
+    }
+    if samples.is_empty() {
+        reasons.push("no sample case was recorded".into());
     }
     for (k, v) in &counters {
         if k.starts_with("harness-error:") && *v > 0 {
